@@ -2,4 +2,9 @@
 
 package all
 
-import _ "verif/harness/internal/props/c09"
+import (
+	"verif/harness/internal/props/c09"
+	c09my "verif/harness/internal/props/c09/mysql"
+)
+
+func init() { c09.MySQLLayer = c09my.Layer }
